@@ -19,7 +19,7 @@ class Contract:
                  assumptions=(), loop_modifies=None, check_encode=False, replay=None, generator=False,
                  ghost_modifies=(), pure=False, notes="", bodyless=False, lemmas=None, cls=None,
                  timeout_ms=None, frame_check=True, inline=False, forall_ghosts=(), watch_extra=None,
-                 model_to_inputs=None, native=None, cuts=None, defaults=None):
+                 model_to_inputs=None, native=None, cuts=None, defaults=None, init_fields=None):
         self.id = id
         self.file = file
         self.qualname = qualname
@@ -64,6 +64,7 @@ class Contract:
         self.watch_extra = watch_extra
         self.cuts = cuts or {}
         self.defaults = defaults or {}
+        self.init_fields = init_fields or {}   # constructor contracts: fields created on self at a call site
         self.model_to_inputs = model_to_inputs   # model dict -> inputs of the native replay driver
         self.native = native                     # (native module, function) used to replay
         self.defs_parsed = {}
@@ -396,6 +397,10 @@ def apply_contract(ev: Ev, contract: Contract, args, kwargs, node):
                 st.havoc_obj(gv, "%s.%s" % (contract.id, g))
             else:
                 st.ghost[g] = st.havoc_value(gv, "%s.%s" % (contract.id, g))
+    if contract.init_fields and "self" in env and isinstance(env["self"], VRef):
+        so = st.obj(env["self"])
+        for fname, ft in contract.init_fields.items():
+            so.fields[fname] = st.fresh(ft, "%s.self.%s" % (contract.id, fname))
     if choice > 0:
         exc, cond = excs[choice - 1]
         payload = st.alloc(Obj(exc, {}))
